@@ -69,7 +69,7 @@ class Problem(object):
         Y, b = self.Y, self.b
         d = {'L2sq.translated': S.L2NormSquared(Y).translated(b), 'L1.translated': S.L1Norm(Y).translated(b), 'L2.translated': S.L2Norm(Y).translated(b),
              'box': S.IndicatorBox(Y, -1, 1)}
-        if util.is_pspace(Y) and Y.is_power_space:
+        if self.kind.startswith('gradient'):    # a power space for every draw (broadcast: only when m == n)
             d['GroupL1'] = S.GroupL1Norm(Y)
         if not util.is_pspace(Y):
             d['KL'] = S.KullbackLeibler(Y, Y.element(np.abs(np.asarray(b)) + 0.1))
